@@ -272,6 +272,9 @@ def run(rep, ctx):
         _c04w.both_directions_alike(rep, M, "R03.9")
         _c04w.image_labels_add(rep, M, "R03.9")
         _c04w.correction_orientation(rep, M, "R03.9")
+        _c04w.builders_pick_alike(rep, M, "R03.9")
+        _c04w.per_copy_distance(rep, M, "R03.9")
+        _c04w.span_2d_form(rep, M, "R03.9")
         _c04w.span_through_minus_neighbour(rep, M, "R03.9")
     rep.rule("R03.10", "the stack is searched on a working copy whose atoms are inside the cell: missing cell vectors completed, atoms outside along a non-periodic axis always "
              "trigger enlargement and centring (shared with C04; the stacking direction may be non-periodic)")
